@@ -60,6 +60,58 @@ func classNames(cs map[string]*core.GClass) []string {
 	return n
 }
 
+func isFormattingMethod(fn *ssa.Function) bool {
+	if fn.Signature.Recv() == nil {
+		return false
+	}
+	switch fn.Name() {
+	case "String", "Error", "GoString", "Format", "MarshalJSON", "MarshalText", "MarshalYAML":
+		return true
+	}
+	return false
+}
+
+// classFormatsType: some own function the class reaches (other than the method itself) turns a value of the
+// method's receiver type into an interface value, or calls the method statically.
+func classFormatsType(p *core.Program, cl *core.GClass, m *ssa.Function) bool {
+	if cl == nil {
+		return true
+	}
+	rt := m.Signature.Recv().Type()
+	base := rt
+	if pt, ok := rt.(*types.Pointer); ok {
+		base = pt.Elem()
+	}
+	same := func(t types.Type) bool {
+		if pt, ok := t.(*types.Pointer); ok {
+			t = pt.Elem()
+		}
+		return types.Identical(t, base)
+	}
+	for g := range cl.Reach {
+		if g == m || !p.IsOwnFn(g) || g.Blocks == nil {
+			continue
+		}
+		found := false
+		core.Instrs(g, func(in ssa.Instruction) {
+			switch x := in.(type) {
+			case *ssa.MakeInterface:
+				if same(x.X.Type()) {
+					found = true
+				}
+			case ssa.CallInstruction:
+				if x.Common().StaticCallee() == m {
+					found = true
+				}
+			}
+		})
+		if found {
+			return true
+		}
+	}
+	return false
+}
+
 func C17(c *core.Ctx) {
 	c.Explain = "Race freedom of session and transaction state is decided as CONFINEMENT, a static property: (R1) goroutine roots are discovered from the source (go statements, " +
 		"time.AfterFunc callbacks, main); every direct access (read, write, map/slice/channel mutation) to the confined state — PfcpServer.{lnode,rnodes,txTrans,rxTrans,txSeq}, all " +
@@ -128,6 +180,18 @@ func C17(c *core.Ctx) {
 			}
 			if len(cs) == 0 {
 				continue // not reachable from any goroutine root (dead or test helper)
+			}
+			// a formatting method (String, Error, ...) is reached by every class that formats anything, through fmt's
+			// dynamic dispatch; a class really runs it only if it hands a value of the receiver's type to an interface
+			// (or calls it directly)
+			if len(foreign) > 0 && isFormattingMethod(fn) {
+				var kept []string
+				for _, cl := range foreign {
+					if classFormatsType(p, classes[cl], fn) {
+						kept = append(kept, cl)
+					}
+				}
+				foreign = kept
 			}
 			var path []string
 			if len(foreign) > 0 {
